@@ -707,6 +707,7 @@ func TestC15_Finding_FC151(t *testing.T) {
 	var cbs []bool
 	set := NewAliveDialerSet(log, "c15", nt, 0, consts.DialerSelectionPolicy_MinLastLatency,
 		[]*Dialer{d}, []*Annotation{{}}, func(alive bool) { cbs = append(cbs, alive) }, true)
+	cbs = nil // whatever the constructor announced, the node is alive and selected now
 	set.NotifyLatencyChange(d, false)
 	if len(cbs) != 1 || cbs[0] {
 		t.Fatalf("setup: expected exactly callback(false) after the only node died, got %v", cbs)
